@@ -160,6 +160,7 @@ func main() {
 	defer os.RemoveAll(tmp)
 	sf := filepath.Join(tmp, "main.go")
 	os.WriteFile(sf, []byte(src), 0o644)
+	keepStandin("c06_1", src)
 	virt := filepath.Join(opts.Repo, "internal", "zz_verif_c06bounded", "main.go")
 	ov, _ := json.Marshal(map[string]any{"Replace": map[string]string{virt: sf}})
 	ovf := filepath.Join(tmp, "ov.json")
